@@ -11,9 +11,9 @@ out = {}
 for cfg in CFGS:
     fb = facts.FactBase(cfg, m[cfg]["dir"], renames=False)
     for p, it in fb.items.items():
-        if it.kind not in ("Fn", "AssocFn") or it.crate not in ("rln", "zerokit_utils") or "@" in p:
+        if it.kind not in ("Fn", "AssocFn", "Static", "Const") or it.crate not in ("rln", "zerokit_utils") or "@" in p:
             continue
-        sig = [l["ty"] for l in it.locals[:it.arg_count + 1]]
+        sig = facts.signature(it)
         e = out.setdefault(p, {"sig": sig, "vis": "pub" if str(it.get("vis", "")).startswith("Public") else "priv", "cfgs": [], "fp": facts.fingerprint(it)})
         e["cfgs"].append(cfg)
 adts = {}
